@@ -86,6 +86,41 @@ def build_schema():
     ), consts
 
 
+COLS = ["STATUS", "DAYS_ACT", "DAYS_EMITTING", "T_VOL_EMIT", "MITIGATED", "T_RATE", "DATE_BEG", "DATE_REP_EXP",
+        "THEORY_DATE", "INIT_DETECT_BY", "INIT_DETECT_DATE", "TAGGED", "TAGGED_BY", "RECORDED", "RECORDED_BY",
+        "REPAIRABLE", "EST_DAYS_ACT"]
+
+
+def summary_columns(classes, final):
+    """{column constant: (defining class, value expression)} of `get_summary_dict` as an instance of `final` sees
+    it: the definitions along the MRO, base first, a later `summary_dict.update({(key, value)})` overriding an
+    earlier one; a definition that does not call `super().get_summary_dict()` starts from an empty dict"""
+    import ast
+    cols = {}
+    for cls in reversed(P.c3(classes, final)):
+        fn = classes[cls].methods.get("get_summary_dict")
+        if fn is None:
+            continue
+        calls_super = any(isinstance(n, ast.Call) and isinstance(n.func, ast.Attribute)
+                          and n.func.attr == "get_summary_dict" and isinstance(n.func.value, ast.Call)
+                          and getattr(n.func.value.func, "id", None) == "super" for n in ast.walk(fn))
+        if not calls_super:
+            cols = {}
+        for st in fn.body:
+            if (isinstance(st, ast.Expr) and isinstance(st.value, ast.Call) and isinstance(st.value.func, ast.Attribute)
+                    and st.value.func.attr == "update" and len(st.value.args) == 1):
+                a = st.value.args[0]
+                pairs = []
+                if isinstance(a, ast.Set):
+                    pairs = [e for e in a.elts if isinstance(e, ast.Tuple) and len(e.elts) == 2]
+                elif isinstance(a, ast.Dict):
+                    pairs = [ast.Tuple(elts=[k, v]) for k, v in zip(a.keys, a.values)]
+                for e in pairs:
+                    key = ast.unparse(e.elts[0])
+                    cols[key.split(".")[-1]] = (cls, e.elts[1])
+    return cols
+
+
 def generate():
     schema, consts = build_schema()
     classes = P.load_classes([os.path.join(ET, f) for f in FILES])
@@ -104,6 +139,29 @@ def generate():
                 aliases.append((short, m, None, ret))
             else:
                 aliases.append((short, m, n, tr.sigs[n]))
+    col_lines = []
+    # the per-emission record (`get_summary_dict`): one Lean function per column and class
+    col_report = {}
+    for final, short in FINALS.items():
+        cols = summary_columns(classes, final)
+        col_report[short] = {}
+        for key in COLS:
+            if key not in cols:
+                continue
+            owner, expr = cols[key]
+            mt = P.MethodTr(tr, final, owner, "get_summary_dict", "cols")
+            mt.locals = {"end_date": "Int"}
+            mt.ret = "Unit"
+            try:
+                t = mt.typeof(expr)
+                if t in ("?", "Const", "None"):
+                    raise P.Untranslatable(f"column {key}: value of unknown type ({__import__('ast').unparse(expr)})")
+                v = mt.val(expr)
+                col_lines.append(f"/-- record column `{key}` of a `{final}` (`{owner}.get_summary_dict`) -/\n"
+                             f"@[simp] def {short}.col_{key} (o : Obj) (end_date : Int) : {schema.lean_type(t)} := {v}\n")
+                col_report[short][key] = t
+            except P.Untranslatable as e:
+                col_report[short][key] = "untranslated: " + str(e)
     mros = {f: P.c3(classes, f) for f in FINALS}
     lines = [
         "/- GENERATED by harness/extract/emission_src.py from virtual_world/emission_types/*.py — do not edit.",
@@ -142,6 +200,7 @@ def generate():
             ps = "".join(f" ({a} : {schema.lean_type(t)})" for a, t in params)
             args = "".join(f" {a}" for a, t in params)
             lines.append(f"abbrev {short}.{m} (o : Obj){ps} : Obj × {schema.lean_type(ret)} := {n} o{args}\n")
+    lines += col_lines
     lines.append("end LdarModel.EmissionSrc\n")
     text = "\n".join(lines)
     old = open(OUT).read() if os.path.exists(OUT) else None
@@ -158,7 +217,7 @@ def generate():
         with open(OUT_DRV, "w") as fh:
             fh.write(drv)
     return {"translated": [n for n in tr.order], "untranslated": untranslated, "mros": mros,
-            "constants": consts, "changed": old != text, "field_order": field_order,
+            "constants": consts, "changed": old != text, "field_order": field_order, "columns": col_report,
             "entries": {pub: [[a, t] for a, t in tr.sigs[n][0]] for pub, n in entries},
             "ret_parts": {pub: tr.ret_parts[n] for pub, n in entries}}
 
